@@ -462,13 +462,14 @@ def main(tier):
                           {"lemma": l})
     need = ["roundtrip:roundtrip-some", "roundtrip:escape-taken", "shorten:shortened", "shorten:unshortened",
             "shorten-prod:shortened", "shorten-prod:unshortened"]
+    # (a reproduced violation is reported even if some witness is missing: exit 1 has priority over exit 2)
     for k in need:
-        if not vac.get(k):
+        if not vac.get(k) and not rep.new:
             raise Inconclusive("vacuity witness missing: " + k)
     for k, v in lem_vac.items():
-        if not v:
+        if not v and not rep.new:
             raise Inconclusive("vacuity witness missing: " + k)
-        vac[k] = True
+        vac[k] = bool(v)
 
     cov = {
         "obligations": obligations, "discharged": discharged,
